@@ -39,7 +39,7 @@ from translate import GEN_DIR, lstr
 # ======================================================================================
 
 S, A = ("S",), ("A",)            # Cls.scalar, Cls.any ; Cls.lv t = ("L", t) ; t = ("sh", k) | ("deep",) | ("num",)
-DEEP, NUM = ("deep",), ("num",)
+DEEP, NUM, EXT, NUMS = ("deep",), ("num",), ("ext",), ("nums",)
 
 
 def SH(k):
@@ -55,11 +55,13 @@ def lvl_elem(t):
         return None if t[1] == 0 else SH(t[1] - 1)
     if t == DEEP:
         return DEEP
+    if t == NUMS:
+        return NUM
     return None
 
 
 def lvl_sub(a, b):
-    return a == b or a == NUM
+    return a == b or (a == NUM and b != EXT)
 
 
 def cls_le(c, d):
@@ -162,9 +164,10 @@ class Mirror:
     collected as (kind, line, text) with kind 'write' (target may be a parameter), 'level' (new object, but
     its level typing does not admit the value) or 'unknown' (untranslated code receives an object)."""
 
-    def __init__(self, sums, rc, level, collect=True, tgt_of=None):
+    def __init__(self, sums, rc, level, collect=True, tgt_of=None, wps=None):
         self.sums, self.rc, self.level = sums, rc, level
         self.tgt_of = tgt_of
+        self.wps = wps or (lambda g: ())
         self.fails = []
         self.rets = []
         self.collect = collect
@@ -196,13 +199,13 @@ class Mirror:
             t = self.level(st.site)
             ok = True
             if kind == "dict":
-                ok = t != NUM
+                ok = t != NUM and t != EXT
             elif kind == "arr":
-                ok = True
+                ok = t != EXT
             elif kind == "lit":
-                ok = t != NUM and all(storable(t, env_get(a, y)) for y in ys)
+                ok = t != NUM and t != EXT and all(storable(t, env_get(a, y)) for y in ys)
             elif kind == "union":
-                ok = t != NUM and all(mergeable(t, env_get(a, y)) for y in ys)
+                ok = t != NUM and t != EXT and all(mergeable(t, env_get(a, y)) for y in ys)
             elif kind == "deep":
                 ok = t == DEEP
             if not ok:
@@ -254,13 +257,20 @@ class Mirror:
             if cx == A:
                 self.fail("write", st, st.note or "augmented assignment on a reference that may reach a parameter/global")
                 return self.prim(False, a, a)
-            ok = mergeable(cx[1], cv)
+            ok = mergeable(cx[1], cv) and cx[1] != EXT
             if not ok:
                 self.fail("level", st, f"augmented assignment: {cv} into new object of level {cx[1]}")
             return self.prim(ok, a, a)
         if op == "call":
-            var, f, _args = x
-            return self.prim(True, a, env_set(a, var, self.sums(f)))
+            var, f, args = x
+            ok = True
+            for j in self.wps(f):
+                c = env_get(a, args[j]) if j < len(args) else S
+                if st.note == "unaligned" or not (c == S or (c[0] == "L" and lvl_elem(c[1]) is None)):
+                    ok = False
+            if not ok:
+                self.fail("write", st, f"an object that may be protected is handed to a parameter that `{f}` writes")
+            return self.prim(ok, a, env_set(a, var, self.sums(f)))
         if op == "unknown":
             ok = all(env_get(a, y) == S for y in x[0])
             if not ok:
@@ -333,9 +343,11 @@ class Levels:
     """points-to over the allocation sites of ONE function (flow-sensitive in the variables, one global
     contents map per site), then levels from the contents graph"""
 
-    def __init__(self, fn, ret_cls_of):
+    def __init__(self, fn, ret_cls_of, wps=None):
         self.fn = fn
         self.ret_cls_of = ret_cls_of
+        self.wps = wps or (lambda g: ())
+        self.written = set()     # positions of unprotected parameters whose object this function (or a callee) writes
         self.cont = {}         # site -> set of atoms ('ANY' | site)
         self.fixed = {}        # site -> level (results of calls, deepcopy, arithmetic)
         self.msrc = {}         # site -> sites whose entries were merged into it
@@ -352,7 +364,7 @@ class Levels:
             self.changed = True
 
     def addm(self, site, atoms):
-        new = {a for a in atoms if a not in ("ANY", "DYN")} - self.msrc.get(site, set())
+        new = {a for a in atoms if a not in ("ANY", "DYN") and a[0] != "EXT"} - self.msrc.get(site, set())
         if new:
             self.msrc.setdefault(site, set()).update(new)
             self.changed = True
@@ -362,6 +374,8 @@ class Levels:
         for at in atoms:
             if at in ("ANY", "DYN"):
                 out.add(at)
+            elif at[0] == "EXT":
+                out.add("ANY")           # what an unprotected object contains may be anything
             else:
                 out |= self.cont.get(at, frozenset())
         return out
@@ -371,7 +385,7 @@ class Levels:
         site = ("fx", key, t)
         self.fixed[site] = t
         e = lvl_elem(t)
-        if t == NUM or t == DEEP:
+        if t == NUM or t == DEEP or t == NUMS:
             pass
         elif e is None:
             self.addc(site, {"ANY"})
@@ -438,9 +452,10 @@ class Levels:
             return setv(x[0], self.contents_of(P(x[1]))), (env if self.in_try else None), None
         if op in ("store", "merge", "aug", "shrink"):
             self.tgt[id(st)] = self.tgt.get(id(st), frozenset()) | P(x[0])
+            self.written |= {at[1] for at in P(x[0]) if at[0] == "EXT"}
         if op == "store":
             for s in P(x[0]):
-                if s not in ("ANY", "DYN"):
+                if s not in ("ANY", "DYN") and s[0] != "EXT":
                     self.addc(s, P(x[1]))
             return env, (env if self.in_try else None), None
         if op in ("merge", "aug"):
@@ -449,14 +464,18 @@ class Levels:
                 self.fixed[site] = NUM
                 return setv(x[0], {site}), (env if self.in_try else None), None
             for s in P(x[0]):
-                if s not in ("ANY", "DYN"):
+                if s not in ("ANY", "DYN") and s[0] != "EXT":
                     self.addc(s, self.contents_of(P(x[1])))
                     self.addm(s, P(x[1]))
             return env, (env if self.in_try else None), None
         if op in ("shrink", "unknown"):
             return env, (env if self.in_try else None), None
         if op == "call":
-            var, f, _ = x
+            var, f, cargs = x
+            for j in self.wps(f):
+                if j < len(cargs):
+                    self.tgt[id(st)] = self.tgt.get(id(st), frozenset()) | P(cargs[j])
+                    self.written |= {at[1] for at in P(cargs[j]) if at[0] == "EXT"}
             c = self.ret_cls_of(f)
             if c == A:
                 return setv(var, {"ANY"}), (env if self.in_try else None), None
@@ -507,6 +526,8 @@ class Levels:
 
     def solve(self):
         env0 = {p: frozenset({"ANY"}) for p in self.fn.params}
+        for pos in getattr(self.fn, "unprot", ()):
+            env0[self.fn.params[pos]] = frozenset({("EXT", pos)})
         n = 0
         while self.changed and n < 12:
             self.changed = False
@@ -517,7 +538,7 @@ class Levels:
     def assign(self):
         sites = set(self.cont) | set(self.fixed) | set(self.msrc)
         for atoms in list(self.cont.values()) + list(self.msrc.values()):
-            sites |= {a for a in atoms if a not in ("ANY", "DYN")}
+            sites |= {a for a in atoms if a not in ("ANY", "DYN") and a[0] != "EXT"}
         level, state = {}, {}
         for s_, t_ in self.forced.items():
             level[s_] = t_
@@ -530,9 +551,9 @@ class Levels:
             if s in stack:
                 return True
             if s in self.fixed:
-                r = self.fixed[s] in (DEEP, NUM)
+                r = self.fixed[s] in (DEEP, NUM, NUMS)
             else:
-                r = all(c not in ("ANY", "DYN") and paramfree(c, stack + (s,)) for c in self.cont.get(s, ()))
+                r = all(c not in ("ANY", "DYN") and c[0] != "EXT" and paramfree(c, stack + (s,)) for c in self.cont.get(s, ()))
             state[s] = r
             return r
 
@@ -547,7 +568,7 @@ class Levels:
             if paramfree(s):
                 return None            # flexible: decided top-down
             cs = self.cont.get(s, ())
-            if "ANY" in cs or "DYN" in cs:
+            if "ANY" in cs or "DYN" in cs or any(c[0] == "EXT" for c in cs):
                 r = SH(0)
             else:
                 ls = {lvl(c, stack + (s,)) for c in cs}
@@ -573,20 +594,25 @@ class Levels:
                 return 99
             if s in self.fixed:
                 return 0 if self.fixed[s] == NUM else 99
-            hs = [height(c, stack + (s,)) for c in self.cont.get(s, ()) if c not in ("ANY", "DYN")]
+            hs = [height(c, stack + (s,)) for c in self.cont.get(s, ()) if c not in ("ANY", "DYN") and c[0] != "EXT"]
             hs = [h for h in hs if h != 0]
             r = 1 if not hs else (99 if max(hs) >= MAX_SH else 1 + max(hs))
             hmemo[s] = r
             return r
 
-        def give(s, t):
+        self.given = set()        # flexible sites whose level was imposed by a container they are stored in
+        self.natural = {}
+
+        def give(s, t, imposed=True):
             if s in level:
                 return
             level[s] = t
+            if imposed:
+                self.given.add(s)
             e = lvl_elem(t)
             if e is not None:
                 for c in self.cont.get(s, ()):
-                    if c not in ("ANY", "DYN"):
+                    if c not in ("ANY", "DYN") and c[0] != "EXT":
                         give(c, e)
                 for c in self.msrc.get(s, ()):
                     give(c, t)
@@ -597,7 +623,7 @@ class Levels:
                 e = lvl_elem(t)
                 if e is not None:
                     for c in self.cont.get(s, ()):
-                        if c not in ("ANY", "DYN") and c not in level:
+                        if c not in ("ANY", "DYN") and c[0] != "EXT" and c not in level:
                             give(c, e)
                     for c in self.msrc.get(s, ()):
                         if c not in level:
@@ -605,7 +631,12 @@ class Levels:
         rest = sorted((s for s in sites if s not in level), key=lambda s: -height(s))
         for s in rest:
             h = height(s)
-            give(s, DEEP if h >= 99 else SH(max(h, 1)))
+            give(s, DEEP if h >= 99 else (NUMS if h <= 1 else SH(h)), imposed=False)
+        for s in sites:
+            if s not in self.fixed and s not in self.forced:
+                h = height(s) if paramfree(s) else None
+                if h is not None:
+                    self.natural[s] = DEEP if h >= 99 else (NUMS if h <= 1 else SH(h))
         return level
 
 
@@ -616,7 +647,7 @@ class Levels:
 def lean_lvl(t):
     if t[0] == "sh":
         return f"(.sh {t[1]})"
-    return ".deep" if t == DEEP else ".num"
+    return {DEEP: ".deep", NUM: ".num", EXT: ".ext", NUMS: ".nums"}[t]
 
 
 def lean_cls(c):
@@ -739,7 +770,8 @@ LIB_SUMMARY = {
         "html.escape", "inspect.signature", "bisect.bisect_left", "bisect.bisect_right", "bisect.bisect",
         "sys.exit", "time.time", "abc.abstractmethod", "gzip.GzipFile", "io.BufferedReader", "io.BufferedWriter",
         "awswrangler.s3.upload", "awswrangler.s3.to_csv", "awswrangler.s3.download", "boto3.client", "boto3.Session",
-        "pandas.api.types.is_datetime64_any_dtype", "pandas.api.types.is_numeric_dtype",
+        "pandas.api.types.is_datetime64_any_dtype", "pandas.api.types.is_numeric_dtype", "pandas.api.types.is_string_dtype",
+        "pandas.api.types.is_object_dtype", "pandas.api.types.is_float_dtype", "pandas.api.types.is_integer_dtype",
     ],
     "num": [
         "numpy.sum", "numpy.mean", "numpy.median", "numpy.std", "numpy.var", "numpy.min", "numpy.max", "numpy.amin",
@@ -842,7 +874,8 @@ METHOD_SUMMARY = {
                     "then", "otherwise", "bin", "tooltip", "sort_enc", "stack_enc", "when", "to_json", "save",
                     "to_dict_chart", "resolve_indices", "impute", "band", "format_enc", "labelExpr", "type_enc"],
     "elem": [],
-    "alias": ["get", "reshape", "ravel", "squeeze", "transpose", "view", "swapaxes", "to_numpy", "__getitem__",
+    "elemdef": ["get"],
+    "alias": ["reshape", "ravel", "squeeze", "transpose", "view", "swapaxes", "to_numpy", "__getitem__",
               "__iter__", "__next__", "__enter__", "result", "clip_array", "join_path"],
 }
 # `x.join(parts)` on a str and `x.replace(..)` on a str/date are immutable-value methods; they are offered as
@@ -864,6 +897,9 @@ for _k, _ns in METHOD_SUMMARY.items():
     for _n in _ns:
         _METH.setdefault(_n, _k)
 
+# attributes stored as entries of the object itself; all other attributes are stored in a box (see Builder.attr_load)
+DIRECT_ATTRS = {"values", "_values"}
+
 # callees assumed PURE although not translated: callable parameters / callable values taken from containers
 # (`func_or_val(cell)`, `metric(cell)`, `summary_fns[k](values)`): the property presumes pure callbacks, and a
 # library function reached this way is translated and checked on its own.
@@ -873,25 +909,13 @@ NOT_DISCIPLINED = {
     "bermuda.io.binary_input:_BodyRawIO.readinto":
         "io.RawIOBase.readinto fills the caller's buffer by contract (not a Triangle/Cell/Metadata argument)",
     "bermuda.io.binary_input:_open_s3_stream": "assigns the module-level lazy S3 client cache `_S3`",
-    "bermuda.io.data_frame_input:_check_index_columns":
-        "private helper that converts date columns of the data frame it is given IN PLACE (`df[column] = pd.to_datetime(..)`)",
     "bermuda.matrix.matrix:Matrix.__setitem__": "`__setitem__` is a mutator of its receiver by contract (Matrix)",
 }
 
 # reviewed FALSE ALARMS of the analysis: functions of /repo that the discipline rejects although they write nothing
 # that existed before the call (reason given in NOT_DISCIPLINED). A call of one of them is summarised like a pure
 # library call (result: anything). They stay covered by the fingerprint correspondence.
-REVIEWED_PURE = {
-    "bermuda.date_utils:standardize_resolution":
-        "`quantity *= 3` on the int taken out of the (quantity, unit) tuple: rebinding of a number",
-    "bermuda.date_utils:resolution_delta":
-        "`quantity *= -1` on the int taken out of the (quantity, unit) tuple: rebinding of a number",
-    "bermuda.utils.basis:_policy_earned_premium_share_by_month":
-        "`earned_premium_by_month[k] += x` on float entries (annotation dict[date, float]): `+=` on a float rebinds",
-    "bermuda.io.data_frame_input:long_data_frame_to_triangle":
-        "`cells[index].values[field] = value` writes into the values dict of a cell built in this call (the dict "
-        "display passed to the constructor); the analysis is field-insensitive for constructed objects",
-}
+REVIEWED_PURE = {}
 
 NOT_DISCIPLINED.update({k: "reviewed false alarm, summarised as pure: " + v for k, v in REVIEWED_PURE.items()})
 
@@ -908,6 +932,7 @@ def trusted_summaries():
     return {
         "pure_results": {k: sorted(set(BUILTIN_SUMMARY.get(k, []) + LIB_SUMMARY.get(k, []))) for k in
                          ("scalar", "num", "shallow", "shallow_any", "elem", "alias")},
+        "assumed_annotations_validated_at_run_time": ASSUMED_ANNOTATIONS,
         "pure_methods": METHOD_SUMMARY,
         "prefix_rules": LIB_PREFIX_SUMMARY,
         "writers_of_argument": LIB_WRITES,
@@ -915,6 +940,9 @@ def trusted_summaries():
         "writers_of_first_argument_methods": sorted(METHOD_WRITES_ARG0),
         "write_keywords": WRITE_KEYWORDS,
         "reviewed_pure_functions_of_repo": REVIEWED_PURE,
+        "unprotected_parameter_annotations": sorted(UNPROTECTED_ANNOTATIONS),
+        "attributes_stored_directly_in_the_object (all others: boxed)": sorted(DIRECT_ATTRS),
+        "mutators_by_contract_outside_the_program": {k: v for k, v in NOT_DISCIPLINED.items() if k not in REVIEWED_PURE},
         "immutable_annotations": sorted(IMMUTABLE_ANNOTATIONS),
     }
 
@@ -947,6 +975,7 @@ class FnRec:
         self.callees = set()
         self.ret_args = set()
         self.attached = False
+        self.unprot = []          # positions (in params) of parameters annotated with an unprotected type
 
 
 class ModInfo:
@@ -985,6 +1014,77 @@ def returned_params(node):
             if not isinstance(c, (ast.FunctionDef, ast.Lambda, ast.ClassDef)):
                 stack.append(c)
     return out
+
+
+# annotations of parameters that are NOT protected by the property (the property protects Triangle / Cell /
+# Metadata arguments and everything they reach); unannotated or anything else: protected
+UNPROTECTED_ANNOTATIONS = {"DataFrame"}
+
+
+def unprotected_annotation(ann):
+    if ann is None:
+        return False
+    if isinstance(ann, ast.Constant) and isinstance(ann.value, str):
+        try:
+            return unprotected_annotation(ast.parse(ann.value, mode="eval").body)
+        except SyntaxError:
+            return False
+    if isinstance(ann, (ast.Name, ast.Attribute)):
+        d = dotted(ann) or ""
+        return d.split(".")[-1] in UNPROTECTED_ANNOTATIONS
+    if isinstance(ann, ast.BinOp) and isinstance(ann.op, ast.BitOr):
+        sides = [ann.left, ann.right]
+        rest = [x for x in sides if not (isinstance(x, ast.Constant) and x.value is None)]
+        return len(rest) == 1 and unprotected_annotation(rest[0])
+    if isinstance(ann, ast.Subscript) and (dotted(ann.value) or "").split(".")[-1] == "Optional":
+        return unprotected_annotation(ann.slice)
+    return False
+
+
+# parameters WITHOUT an annotation in the source whose type the translator assumes (written like an annotation).
+# harness/c03.py wraps these functions and checks the assumption on every call made during the run.
+ASSUMED_ANNOTATIONS = {
+    "bermuda.date_utils:standardize_resolution": {"resolution": "tuple[int, str]"},
+    "bermuda.date_utils:resolution_delta": {"resolution": "tuple[int, str]"},
+}
+
+
+def container_of_immutables(ann):
+    """dict[K, float] / list[int] / Sequence[str] / ... (| None): the object is protected like any other, but what is
+    taken out of it is an immutable value"""
+    if ann is None:
+        return False
+    if isinstance(ann, ast.Constant) and isinstance(ann.value, str):
+        try:
+            return container_of_immutables(ast.parse(ann.value, mode="eval").body)
+        except SyntaxError:
+            return False
+    if isinstance(ann, ast.BinOp) and isinstance(ann.op, ast.BitOr):
+        sides = [x for x in (ann.left, ann.right) if not (isinstance(x, ast.Constant) and x.value is None)]
+        return len(sides) == 1 and container_of_immutables(sides[0])
+    if isinstance(ann, ast.Subscript):
+        base = (dotted(ann.value) or "").split(".")[-1]
+        args = ann.slice.elts if isinstance(ann.slice, ast.Tuple) else [ann.slice]
+        if base == "Optional":
+            return container_of_immutables(ann.slice)
+        if base in ("dict", "Dict", "Mapping", "list", "List", "Sequence", "Iterable", "set", "Set", "frozenset",
+                    "defaultdict", "OrderedDict"):
+            return all(immutable_annotation(x) for x in args)
+    return False
+
+
+def ir_param_names(node, kind):
+    """names of the IR parameters of a function, in the order of `Fn.params` (without `self` of a constructor)"""
+    a = node.args
+    names = [p.arg for p in a.posonlyargs + a.args]
+    if a.vararg:
+        names.append(a.vararg.arg)
+    names += [p.arg for p in a.kwonlyargs]
+    if a.kwarg:
+        names.append(a.kwarg.arg)
+    if kind in ("init", "postinit") and not isinstance(node, ast.Lambda) and names:
+        names = names[1:]
+    return names
 
 
 IMMUTABLE_ANNOTATIONS = {"int", "float", "str", "bool", "bytes", "complex", "date", "datetime", "None", "NoneType",
@@ -1070,6 +1170,11 @@ class World:
         self.attach_methods()
         for f in self.fns.values():
             f.ret_args = returned_params(f.node)
+            if not isinstance(f.node, ast.Lambda):
+                a = f.node.args
+                anns = {p.arg: p.annotation for p in a.posonlyargs + a.args + a.kwonlyargs}
+                names = ir_param_names(f.node, f.kind)
+                f.unprot = [i for i, nme in enumerate(names) if unprotected_annotation(anns.get(nme))]
         for c in self.classes.values():
             for k in c.methods.values():
                 f = self.fns[k]
@@ -1350,6 +1455,9 @@ class Builder:
         self.gen_var = None
         self.self_var = None
         self.rebinding_names = set()
+        self._star = False
+        self.ctor_depth = 0
+        self.imm_elems = set()     # parameters annotated as containers of immutable values (never reassigned)
 
     # -- variables ---------------------------------------------------------------------
     def tmp(self, name=None):
@@ -1437,6 +1545,11 @@ class Builder:
             is_gen = any(isinstance(n, (ast.Yield, ast.YieldFrom)) for n in self.own_nodes(node))
 
             anns = {p.arg: p.annotation for p in a.posonlyargs + a.args + a.kwonlyargs}
+            for nme, txt in ASSUMED_ANNOTATIONS.get(f.key.split("@")[0], {}).items():
+                if nme in anns and anns[nme] is None:
+                    anns[nme] = ast.parse(txt, mode="eval").body
+            assigned = {n.id for n in ast.walk(node) if isinstance(n, ast.Name) and isinstance(n.ctx, (ast.Store, ast.Del))}
+            self.imm_elems = {nme for nme, ann in anns.items() if container_of_immutables(ann) and nme not in assigned}
 
             def whole():
                 for nme, ann in anns.items():
@@ -1598,10 +1711,12 @@ class Builder:
                     self.ev_index(t.slice)
                     cur = self.load_item(t.value, o)
                 else:
-                    cur = self.tmp()
-                    self.emit("load", cur, o)
+                    cur = self.attr_load(o, t.attr)
                 inplace(cur, f"`{self.src(t)} op= ...`: in-place update of an element that may belong to a parameter")
-                self.emit("store", o, cur, note=f"`{self.src(t)} op= ...`: store into an object that may reach a parameter")
+                if isinstance(t, ast.Subscript):
+                    self.emit("store", o, cur, note=f"`{self.src(t)} op= ...`: store into an object that may reach a parameter")
+                else:
+                    self.attr_store(o, t.attr, cur, f"`{self.src(t)} op= ...`: store into an object that may reach a parameter")
         elif isinstance(s, ast.For):
             desc = self.iter_setup(s.iter)
 
@@ -1739,7 +1854,8 @@ class Builder:
                     self.assign(e, t)
         elif isinstance(target, ast.Attribute):
             o = self.ev(target.value)
-            self.emit("store", o, v, note=f"`{self.src(target)} = ...`: attribute store on an object that may reach a parameter")
+            self.attr_store(o, target.attr, v,
+                            f"`{self.src(target)} = ...`: attribute store on an object that may reach a parameter")
         elif isinstance(target, ast.Subscript):
             o = self.ev(target.value)
             self.ev_index(target.slice)
@@ -1775,7 +1891,13 @@ class Builder:
                     return ("scalar",)
             if isinstance(f, ast.Attribute) and not it.args and not it.keywords and f.attr in ("items", "keys", "values") \
                     and f.attr not in self.w.methods_by_name:
+                if self.is_imm_container(f.value):
+                    self.ev(f.value)
+                    return ("zip", [("scalar",), ("scalar",)]) if f.attr == "items" else ("scalar",)
                 return ({"items": "items", "keys": "keys", "values": "vals"}[f.attr], self.ev(f.value))
+        if self.is_imm_container(it):
+            self.ev(it)
+            return ("scalar",)
         return ("seq", self.ev(it))
 
     def iter_next(self, desc):
@@ -1904,6 +2026,9 @@ class Builder:
             return kind in ("num", "scalar")
         return False
 
+    def is_imm_container(self, e):
+        return isinstance(e, ast.Name) and e.id in self.imm_elems and not any(e.id in sc for sc in self.scopes)
+
     def ev_index(self, sl):
         if isinstance(sl, ast.Slice):
             for p in (sl.lower, sl.upper, sl.step):
@@ -1938,16 +2063,43 @@ class Builder:
         return x
 
     def attr_load(self, o, attr):
+        """`o.attr`. REPRESENTATION of objects in the IR: an attribute of DIRECT_ATTRS is an entry of the object itself,
+        every other attribute sits in a one-entry BOX that is an entry of the object (so that an object built around
+        a new values dict and arbitrary other attributes has entries of one level: boxes and the dict)."""
         x = self.tmp()
+
+        def plain():
+            if attr in DIRECT_ATTRS:
+                self.emit("load", x, o)
+            elif attr == "__dict__":
+                # the attribute dict: a new dict holding what the object's entries / boxes hold
+                self.emit("alloc", x, "dict", [], site=self.site())
+                b = self.tmp()
+                self.emit("load", b, o)
+                self.emit("store", x, b)
+                v = self.tmp()
+                self.emit("load", v, b)
+                self.emit("store", x, v)
+            else:
+                b = self.tmp()
+                self.emit("load", b, o)
+                self.emit("load", x, b)
         props = self.w.props_by_name.get(attr, [])
         if props:
-            alts = [lambda: self.emit("load", x, o)]
+            alts = [plain]
             for k in props:
                 alts.append(lambda k=k: self.call_fn(x, k, [o]))
             self.choice(alts)
         else:
-            self.emit("load", x, o)
+            plain()
         return x
+
+    def attr_store(self, o, attr, v, note):
+        if attr in DIRECT_ATTRS:
+            self.emit("store", o, v, note=note)
+        else:
+            b = self.alloc("lit", [v])
+            self.emit("store", o, b, note=note)
 
     def global_value(self, name):
         """a name that is not a local variable, used as a value"""
@@ -1995,6 +2147,8 @@ class Builder:
         if isinstance(e, ast.Subscript):
             o = self.ev(e.value)
             self.ev_index(e.slice)
+            if self.is_imm_container(e.value) and not self.is_view_index(e.slice):
+                return self.const()          # an element of a container annotated as holding immutable values
             if self.is_view_index(e.slice):
                 x = self.tmp()
                 self.choice([lambda: self.emit("bind", x, o),
@@ -2092,9 +2246,26 @@ class Builder:
         raise Untranslatable(f"expression {type(e).__name__} at line {getattr(e, 'lineno', '?')}")
 
     # -- calls -------------------------------------------------------------------------
-    def call_fn(self, x, key, args, pos=None, kws=None):
+    def call_fn(self, x, key, args, pos=None, kws=None, star=False):
         self.f.callees.add(key)
         callee = self.w.fns[key]
+        note = None
+        if callee.unprot and not isinstance(callee.node, ast.Lambda):
+            # the callee may write the object of an unprotected parameter: the IR arguments must line up with its
+            # parameters (positional, then by keyword; a missing argument is the default: an immutable placeholder)
+            names = ir_param_names(callee.node, callee.kind)
+            if pos is None or star or len(pos) > len(names):
+                note = "unaligned"
+            else:
+                aligned = []
+                for i, nme in enumerate(names):
+                    if i < len(pos):
+                        aligned.append(pos[i])
+                    elif kws and nme in kws:
+                        aligned.append(kws[nme][0])
+                    else:
+                        aligned.append(self.const())
+                args = aligned + [v for v in args if v not in aligned]
         cands = []
         if callee.ret_args and not isinstance(callee.node, ast.Lambda):
             a = callee.node.args
@@ -2111,10 +2282,10 @@ class Builder:
                 cands += [v] if v is not None else list(args)
         cands = sorted(set(cands))
         if cands:
-            self.choice([lambda: self.emit("call", x, key, list(args))] +
+            self.choice([lambda: self.emit("call", x, key, list(args), note=note)] +
                         [lambda v=v: self.emit("bind", x, v) for v in cands])
         else:
-            self.emit("call", x, key, list(args))
+            self.emit("call", x, key, list(args), note=note)
 
     def lib_name(self, func):
         """full dotted library name of a callee expression, or None"""
@@ -2169,6 +2340,14 @@ class Builder:
                 for o in objs:
                     alts.append(lambda o=o: self.emit("bind", x, o))
             self.choice(alts)
+        elif kind == "elemdef":
+            # an entry of the first object, or one of the other arguments (the default), or an immutable value
+            alts = [lambda: self.emit("const", x)]
+            if objs:
+                alts.append(lambda: self.emit("load", x, objs[0]))
+                for o in objs[1:]:
+                    alts.append(lambda o=o: self.emit("bind", x, o))
+            self.choice(alts)
         elif kind == "alias":
             alts = [lambda: self.emit("arith", x)]
             if objs:
@@ -2181,6 +2360,7 @@ class Builder:
 
     def eval_args(self, call):
         pos, kws = [], {}
+        self._star = any(isinstance(a, ast.Starred) for a in call.args) or any(kw.arg is None for kw in call.keywords)
         for a in call.args:
             if isinstance(a, ast.Starred):
                 v = self.ev(a.value)
@@ -2217,20 +2397,119 @@ class Builder:
                 alias = True
         return alias
 
-    def construct(self, x, cname, args):
+    def construct(self, x, cname, args, pos=None, kws=None):
         """`C(args)` for a translated class"""
         init = self.w.find_method(cname, "__init__")
         if self.w.is_exception_class(cname):
             self.emit("const", x)
-        elif init is not None:
-            self.call_fn(x, init, args)
-        else:
-            self.emit("alloc", x, "lit", list(args), site=self.site())
-            post = self.w.find_method(cname, "__post_init__")
-            if post is not None:
-                t = self.tmp()
-                self.call_fn(t, post, list(args))
-                self.emit("merge", x, t)
+            return
+        if init is not None:
+            fields = None
+            if pos is not None and not self._star and self.ctor_depth < 3:
+                mark = len(self.cur)
+                try:
+                    self.ctor_depth += 1
+                    fields = self.ctor_fields(self.w.fns[init], pos, kws or {})
+                finally:
+                    self.ctor_depth -= 1
+                if fields is None:
+                    del self.cur[mark:]
+            if fields is None:
+                self.call_fn(x, init, args, pos, kws)
+                return
+            # the constructor runs (its checks; it is translated and checked on its own) ...
+            t = self.tmp()
+            self.call_fn(t, init, args, pos, kws)
+            # ... and the new object holds exactly what its top-level `self.attr = E` statements put there
+            entries = [v if attr in DIRECT_ATTRS else self.alloc("lit", [v]) for attr, v in fields]
+            self.emit("alloc", x, "lit", entries, site=self.site())
+            return
+        # no __init__: a dataclass-like object holding its arguments (each in its box)
+        entries = [self.alloc("lit", [v]) for v in args]
+        self.emit("alloc", x, "lit", entries, site=self.site())
+        post = self.w.find_method(cname, "__post_init__")
+        if post is not None:
+            t = self.tmp()
+            self.call_fn(t, post, list(args))
+            self.emit("merge", x, t)
+
+    def ctor_fields(self, init, pos, kws):
+        """[(attribute, variable)] a simple constructor stores into the new object, evaluated in the CALLER's context
+        with the parameters bound to the call's arguments; None when the constructor is not simple (an attribute
+        store that is not a top-level statement, `self` used other than as `self.attr`)"""
+        node = init.node
+        a = node.args
+        if a.vararg or a.kwarg:
+            return None
+        self_name = (a.posonlyargs + a.args)[0].arg
+        top_assigns = set()
+        for st_ in node.body:
+            if isinstance(st_, ast.Assign) and len(st_.targets) == 1 and isinstance(st_.targets[0], ast.Attribute) \
+                    and isinstance(st_.targets[0].value, ast.Name) and st_.targets[0].value.id == self_name:
+                top_assigns.add(id(st_.targets[0]))
+        super_calls = []
+        for n in ast.walk(node):
+            if isinstance(n, ast.Attribute) and isinstance(n.value, ast.Name) and n.value.id == self_name:
+                if isinstance(n.ctx, ast.Store) and id(n) not in top_assigns:
+                    return None
+        parents = {}
+        for n in ast.walk(node):
+            for c in ast.iter_child_nodes(n):
+                parents[id(c)] = n
+        for n in ast.walk(node):
+            if isinstance(n, ast.Name) and n.id == self_name and not isinstance(parents.get(id(n)), ast.Attribute):
+                return None
+        names = [p.arg for p in (a.posonlyargs + a.args)][1:] + [p.arg for p in a.kwonlyargs]
+        npos = len(a.posonlyargs + a.args) - 1
+        if len(pos) > npos or any(k not in names for k in kws):
+            return None
+        saved_m, saved_f_cls = self.m, self.f.cls
+        scope = {}
+        defaults = dict(zip([p.arg for p in (a.posonlyargs + a.args)][-len(a.defaults):] if a.defaults else [], a.defaults))
+        defaults.update({p.arg: d for p, d in zip(a.kwonlyargs, a.kw_defaults) if d is not None})
+        self.m = init.mod
+        try:
+            for i, nme in enumerate(names):
+                if i < len(pos):
+                    scope[nme] = pos[i]
+                elif nme in kws:
+                    scope[nme] = kws[nme][0]
+                elif nme in defaults:
+                    scope[nme] = self.ev(defaults[nme])
+                else:
+                    return None
+            self.scopes.append(scope)
+            try:
+                fields = []
+                for st_ in node.body:
+                    if isinstance(st_, ast.Assign) and id(st_.targets[0]) in top_assigns:
+                        fields.append((st_.targets[0].attr, self.ev(st_.value)))
+                    elif isinstance(st_, ast.Expr) and isinstance(st_.value, ast.Call) \
+                            and isinstance(st_.value.func, ast.Attribute) and st_.value.func.attr == "__init__" \
+                            and isinstance(st_.value.func.value, ast.Call) \
+                            and isinstance(st_.value.func.value.func, ast.Name) and st_.value.func.value.func.id == "super":
+                        call = st_.value
+                        if any(isinstance(z, ast.Starred) for z in call.args) or any(k.arg is None for k in call.keywords):
+                            return None
+                        p2 = [self.ev(z) for z in call.args]
+                        k2 = {k.arg: (self.ev(k.value), k.value) for k in call.keywords}
+                        parent = None
+                        for b in (init.cls.bases if init.cls else []):
+                            key = self.w.find_method(b, "__init__")
+                            if key:
+                                parent = self.w.fns[key]
+                                break
+                        if parent is None:
+                            continue
+                        sub = self.ctor_fields(parent, p2, k2)
+                        if sub is None:
+                            return None
+                        fields = sub + fields
+                return fields
+            finally:
+                self.scopes.pop()
+        finally:
+            self.m = saved_m
 
     def call(self, e):
         f = e.func
@@ -2263,7 +2542,7 @@ class Builder:
             name = f.id
             if self.lookup(name) is not None:
                 if name == "cls" and self.f.cls is not None:
-                    self.choice([lambda c=c: self.construct(x, c, args) for c in self.w.family(self.f.cls.name)])
+                    self.choice([lambda c=c: self.construct(x, c, args, pos, kws) for c in self.w.family(self.f.cls.name)])
                 else:
                     self.emit("havoc", x, note="dyn")        # callable parameter / local closure: pure callback
                 return x
@@ -2282,6 +2561,12 @@ class Builder:
                 pos, kws, extra = self.eval_args(e)
                 args = pos + [v for v, _ in kws.values()] + extra
                 x = self.tmp()
+                if d == "dict.fromkeys":
+                    # a new dict whose every value is the second argument (default None)
+                    self.emit("alloc", x, "dict", [], site=self.site())
+                    for v in pos[1:2]:
+                        self.emit("store", x, v)
+                    return x
                 self.summary(BUILTIN_DOTTED[d], x, args)
                 return x
             if d in LIB_WRITES and self.lookup(r) is None and self.import_of(r) is None:
@@ -2300,9 +2585,9 @@ class Builder:
                 modname = imp_r[2] if imp_r[0] == "obj" else imp_r[1].split(".")[-1]
                 pref = [k for k in ks if k.split(":")[0].split(".")[-1] == modname]
                 if f.attr in self.w.classes:
-                    self.construct(x, f.attr, args)
+                    self.construct(x, f.attr, args, pos, kws)
                 elif pref or ks:
-                    self.choice([lambda k=k: self.call_fn(x, k, args, pos, kws) for k in (pref or ks)])
+                    self.choice([lambda k=k: self.call_fn(x, k, args, pos, kws, star=self._star) for k in (pref or ks)])
                 else:
                     self.emit("unknown", args, note=f"call of `{what}`: not found in the translated modules")
                     self.emit("havoc", x, note="dyn")
@@ -2315,7 +2600,7 @@ class Builder:
                 x = self.tmp()
                 key = self.w.find_method(r, f.attr)
                 if key is not None:
-                    self.call_fn(x, key, args, pos, kws)
+                    self.call_fn(x, key, args, pos, kws, star=self._star)
                 else:
                     self.emit("unknown", args, note=f"call of `{what}`: no such method in the translated class")
                     self.emit("havoc", x, note="dyn")
@@ -2325,6 +2610,9 @@ class Builder:
             pos, kws, extra = self.eval_args(e)
             args = pos + [v for v, _ in kws.values()] + extra
             x = self.tmp()
+            if self.is_imm_container(f.value) and f.attr == "get":
+                self.choice([lambda: self.emit("const", x)] + [lambda v=v: self.emit("bind", x, v) for v in pos[1:]])
+                return x
             if f.attr == "__class__":
                 return self.construct_family(x, args)
             self.method_call(x, recv, f.attr, pos, kws, args, what)
@@ -2372,9 +2660,9 @@ class Builder:
             target = ("cls", name)
         if target is not None:
             if target[0] == "fn":
-                self.choice([lambda k=k: self.call_fn(x, k, args, pos, kws) for k in target[1]])
+                self.choice([lambda k=k: self.call_fn(x, k, args, pos, kws, star=self._star) for k in target[1]])
             elif target[0] == "cls":
-                self.construct(x, target[1], args)
+                self.construct(x, target[1], args, pos, kws)
             else:
                 self.emit("havoc", x, note="dyn")
             return x
@@ -2468,7 +2756,7 @@ class Builder:
             kind = self.w.fns[key].kind
             a = args if kind == "static" else [recv] + args
             pp = pos if kind == "static" else [recv] + pos
-            alts.append(lambda key=key, a=a, pp=pp: self.call_fn(x, key, a, pp, kws))
+            alts.append(lambda key=key, a=a, pp=pp: self.call_fn(x, key, a, pp, kws, star=self._star))
         if meth in METHOD_WRITES:
             op = METHOD_WRITES[meth]
 
@@ -2503,7 +2791,7 @@ class Builder:
             def pure():
                 alias = self.keyword_writes(recv, pos, kws, what)
                 k2 = "alias" if alias and kind in ("num", "shallow") else kind
-                self.summary(k2, x, [recv] + (args if k2 in ("alias", "elem") else []))
+                self.summary(k2, x, [recv] + (args if k2 in ("alias", "elem", "elemdef") else []))
             alts.append(pure)
         if not alts:
             def unk():
@@ -2521,6 +2809,8 @@ MAX_SH = 3
 def cap(c):
     if c[0] == "L" and c[1][0] == "sh" and c[1][1] > MAX_SH:
         return A
+    if c == LV(EXT):
+        return A            # `writesOnlyFresh` does not admit the declared result class `lv ext`
     return c
 
 
@@ -2533,6 +2823,7 @@ class Program:
         self.violating = []           # (key, [fails])
         self.program = []             # keys, in order
         self.ret = {}
+        self.op_names = []            # names of the registry operations of harness/c03.py
 
     def translate_all(self):
         for key in sorted(self.w.fns):
@@ -2579,6 +2870,7 @@ class Program:
         for _round in range(12):
             bodies = {k: self.prepared(fns[k], inprog) for k in inprog}
             ret = {k: S for k in inprog}
+            wp = {k: set() for k in inprog}        # positions of unprotected parameters the function writes
             levels = {}
 
             class Shim:
@@ -2586,8 +2878,9 @@ class Program:
 
             def one(k, rc, collect):
                 f = fns[k]
-                sig = (k, rc, collect, tuple(sorted((g, ret.get(g)) for g in f.callees if g in inprog)),
-                       tuple(sorted(g for g in f.callees if g not in inprog)))
+                sig = (k, rc, collect, tuple(sorted((g, ret.get(g), tuple(sorted(wp.get(g, ()))))
+                                                    for g in f.callees if g in inprog)),
+                       tuple(sorted(g for g in f.callees if g not in inprog)), tuple(sorted(wp[k])))
                 hit = memo.get(sig)
                 if hit is not None:
                     levels[k] = hit[0]
@@ -2599,13 +2892,16 @@ class Program:
             def one_(k, rc, collect):
                 f = fns[k]
                 sh = Shim()
-                sh.params, sh.body = f.params, bodies[k]
-                L = Levels(sh, lambda g: ret.get(g, A))
+                sh.params, sh.body, sh.unprot = f.params, bodies[k], f.unprot
+                wps = lambda g: sorted(wp.get(g, ()))       # noqa: E731
+                L = Levels(sh, lambda g: ret.get(g, A), wps)
                 lv = L.solve()
                 a0 = {p: A for p in f.params}
+                for pos_ in wp[k]:
+                    a0[f.params[pos_]] = LV(EXT)
                 for _rep in range(6):
-                    m = Mirror(lambda g: ret.get(g, A), rc, lambda s: lv.get(s, DEEP), collect=True,
-                               tgt_of=lambda st: L.tgt.get(id(st)))
+                    m = Mirror(lambda g: ret.get(g, A), rc, lambda s: lv.get(s, NUMS), collect=True,
+                               tgt_of=lambda st: L.tgt.get(id(st)), wps=wps)
                     ok, norm, _, brk = m.run(bodies[k], a0)
                     # repair: a new object whose level does not admit what is put into it becomes `sh 0`
                     bad = set()
@@ -2615,16 +2911,29 @@ class Program:
                         if st.op == "alloc" and st.site not in L.fixed:
                             bad.add(st.site)
                         elif st.op in ("store", "merge", "aug"):
-                            bad |= {s_ for s_ in L.tgt.get(id(st), ()) if s_ not in ("ANY", "DYN") and s_ not in L.fixed}
+                            bad |= {s_ for s_ in L.tgt.get(id(st), ()) if s_ not in ("ANY", "DYN") and s_[0] != "EXT" and s_ not in L.fixed}
                     bad = {b for b in bad if L.forced.get(b) != SH(0)}
-                    if ok or not bad:
+                    # a parameter-free container that was given its level by the object it is stored in, and whose
+                    # elements are updated in place: it keeps its own level instead (the object around it becomes `sh 0`)
+                    own = set()
+                    for kd, _ln, _tx, st in m.fails:
+                        if kd == "level" and st.op in ("aug", "store", "merge", "shrink"):
+                            tg = {s_ for s_ in L.tgt.get(id(st), ()) if s_ not in ("ANY", "DYN")}
+                            own |= {c_ for c_ in getattr(L, "given", ()) if c_ in L.natural and c_ not in L.forced
+                                    and (L.cont.get(c_, frozenset()) & tg or not tg)}
+                    if ok or not (bad or own):
                         break
-                    for b in bad:
-                        L.forced[b] = SH(0)
+                    if own:
+                        for c_ in own:
+                            L.forced[c_] = L.natural[c_]
+                    else:
+                        for b in bad:
+                            L.forced[b] = SH(0)
                     lv = L.assign()
                 levels[k] = lv
                 if not collect:
                     m.fails = []
+                m.written = set(L.written) & set(f.unprot)
                 return m, ok, norm, brk
 
             for it in range(10):
@@ -2642,6 +2951,9 @@ class Program:
                     c = cls_join(ret[k], c) if it >= 7 else c
                     if c != ret[k]:
                         ret[k] = c
+                        changed = True
+                    if not m.written <= wp[k]:
+                        wp[k] |= m.written
                         changed = True
                 if not changed:
                     break
@@ -2668,13 +2980,18 @@ class Program:
                 break
         self.program = sorted(inprog)
         self.ret = ret
+        self.wp = wp
         self.levels = levels
         self.bodies = bodies
         # final pass: loop invariants as Lean will check them (no memo: it annotates the statements)
         for k in self.program:
             lv = levels[k]
-            m = Mirror(lambda g: ret.get(g, A), ret[k], lambda s_, lv=lv: lv.get(s_, DEEP), collect=False)
-            m.run(bodies[k], {p_: A for p_ in fns[k].params})
+            m = Mirror(lambda g: ret.get(g, A), ret[k], lambda s_, lv=lv: lv.get(s_, NUMS), collect=False,
+                       wps=lambda g: sorted(wp.get(g, ())))
+            a0 = {p_: A for p_ in fns[k].params}
+            for pos_ in wp[k]:
+                a0[fns[k].params[pos_]] = LV(EXT)
+            m.run(bodies[k], a0)
         return self
 
     def counts(self):
@@ -2694,8 +3011,9 @@ class Program:
         files = {}
         files["HeapIRSums.lean"] = (
             head + "import Bermuda.Model.HeapIR\nnamespace Bermuda.Generated.HeapIR\nopen Bermuda.HeapIR\n\n"
-            "/-- declared result class of every function of `program`, in order -/\n"
-            "def sums : List Cls := [" + ", ".join(lean_cls(self.ret[k]) for k in self.program) + "]\n\n"
+            "/-- declared result class and written unprotected parameters of every function of `program`, in order -/\n"
+            "def sums : List Summary := [" + ", ".join(
+                f"({lean_cls(self.ret[k])}, {lean_vars(sorted(self.wp[k]))})" for k in self.program) + "]\n\n"
             "end Bermuda.Generated.HeapIR\n")
 
         def size(st):
@@ -2725,10 +3043,10 @@ class Program:
                 k = self.program[i]
                 f = self.w.fns[k]
                 lv = self.levels[k]
-                body = lean_stmt(self.bodies[k], lambda s_, lv=lv: lv.get(s_, DEEP), lambda g: idx[g])
+                body = lean_stmt(self.bodies[k], lambda s_, lv=lv: lv.get(s_, NUMS), lambda g: idx[g])
                 pn = ", ".join(f.varnames.get(p, "?") for p in f.params)
                 out.append(f"/-- {f.mod.rel}:{f.line}  params: {pn} -/")
-                out.append(f"def f{i} : Fn := ⟨{lstr(k)}, {lean_vars(f.params)},\n  {body},\n  {lean_cls(self.ret[k])}⟩\n")
+                out.append(f"def f{i} : Fn := ⟨{lstr(k)}, {lean_vars(f.params)}, {lean_vars(sorted(self.wp[k]))},\n  {body},\n  {lean_cls(self.ret[k])}⟩\n")
             out.append(f"def chunk{c} : List Fn := [" + ", ".join(f"f{i}" for i in range(lo, hi)) + "]\n")
             out.append(f"/-- every function of this chunk respects the discipline (re-proved against today's source) -/")
             out.append(f"theorem chunk{c}_disciplined : chunk{c}.all (writesOnlyFresh sums) = true := by decide +kernel\n")
@@ -2738,6 +3056,25 @@ class Program:
                "namespace Bermuda.Generated.HeapIR", "open Bermuda.HeapIR", ""]
         out.append("def program : List Fn := " + " ++ ".join(f"chunk{c}" for c in range(NCHUNK)) + "\n")
         out.append("theorem program_sums : summaries program = sums := by decide +kernel\n")
+        cov, unc, unm = coverage_of(self, self.op_names) if self.op_names else ([], {}, [])
+
+        def keys_of(op):
+            ks = []
+            for pat in entry_functions(op) or []:
+                ks += [k for k in self.w.fns if (k.endswith(pat) if pat.startswith("@") else k == pat)]
+            return sorted(set(ks))
+        out.append("/-- the operations of the registry of harness/c03.py (regenerated from it) with the numbers of the functions\n"
+                   "of `program` they enter -/")
+        out.append("def registryOps : List (String × List Nat) := [" + ", ".join(
+            f"({lstr(op)}, {lean_vars([idx[k] for k in keys_of(op)])})" for op in cov) + "]\n")
+        out.append("/-- registry operations with an entry function outside `program` (or without a mapping) -/")
+        out.append("def registryUncovered : List String := [" + ", ".join(lstr(o) for o in list(unc) + unm) + "]\n")
+        if self.op_names and not unc and not unm:
+            out.append("theorem registry_all_covered : registryUncovered = [] := rfl\n")
+        out.append("/-- functions that write their receiver / argument / a module-level cache BY CONTRACT and do not take a\n"
+                   "Triangle, Cell or Metadata to protect; they are not part of `program` -/")
+        out.append("def mutatorsByContract : List String := [" + ", ".join(
+            lstr(k) for k in sorted(NOT_DISCIPLINED) if k not in REVIEWED_PURE) + "]\n")
         out.append("/-- functions translated but outside `program` (reason) -/")
         out.append("def notDisciplined : List (String × String) := [" +
                    ", ".join(f"({lstr(k)}, {lstr(r)})" for k, r in sorted(self.not_disciplined)) + "]\n")
@@ -2893,12 +3230,27 @@ def operations_reaching(program_obj, targets, op_names):
     return direct, by_module
 
 
+def registry_names_from_source():
+    """the names registered with `@op("...")` in harness/c03.py (read from its source, so that the translator can be run
+    on its own); option variants are registered at run time and are passed in by c03.py itself"""
+    import re
+    try:
+        src_ = open(os.path.join(os.path.dirname(os.path.abspath(__file__)), "c03.py")).read()
+    except OSError:
+        return []
+    return re.findall(r'^@op\("([^"]+)"', src_, flags=re.M)
+
+
 _LAST = {}
 
 
-def regenerate():
+def regenerate(op_names=None):
     os.makedirs(GEN_DIR, exist_ok=True)
     p = Program(common.REPO)
+    if op_names is None:
+        op_names = registry_names_from_source()
+    import re
+    p.op_names = [re.sub(r" at 0x[0-9a-fA-F]+", "", n) for n in op_names]     # no memory addresses in generated text
     p.translate_all()
     p.analyse()
     changed = []
